@@ -36,6 +36,7 @@ struct Opts {
   std::string avoid;        // comma separated quarantine switches
   int catalogue = 2000;     // purity probe catalogue size
   std::string first_cache;  // purity: precomputed first-call results (written by batch "first")
+  std::string data = "shipped";
   bool print_log = false;
 };
 static Opts O;
@@ -112,7 +113,8 @@ static pid_t g_template_pid = -1;
 
 static void template_main(int req_fd, int resp_fd, const char* bdir) {
   std::string bd = bdir;
-  setenv("LOCPATH", (bd + "/../locale").c_str(), 1);
+  const char* ld = getenv("XV_LOCALE_DIR");
+  setenv("LOCPATH", ld ? ld : (bd + "/../locale").c_str(), 1);
   symbols_load((bd + "/exe.sym").c_str(), bd.c_str());
   load_builtin_crystals((bd + "/Crystals.dat").c_str());
   g_tab_hash0 = tables_hash();
@@ -455,6 +457,7 @@ static Plan gen_plan(uint64_t runseed) {
   Plan p;
   p.engine = O.engine;
   p.batch = O.batch;
+  p.data = O.data;
   p.seed = O.seed;
   p.runseed = runseed;
   Rng rp(splitmix64(runseed ^ tag_of("plan")));
@@ -894,7 +897,7 @@ static void one_run(const Plan& p, long index) {
 static void enum_instance(uint64_t runseed, long index) {
   Rng r(splitmix64(runseed ^ tag_of("enum")));
   Plan p;
-  p.engine = O.engine; p.batch = "enum"; p.seed = O.seed; p.runseed = runseed; p.locale = LOC_C;
+  p.engine = O.engine; p.batch = "enum"; p.data = O.data; p.seed = O.seed; p.runseed = runseed; p.locale = LOC_C;
   p.tasks.push_back(TaskPlan());
   GenCfg cfg;
   cfg.min_ops = 1; cfg.max_ops = 6; cfg.w_query = 20; cfg.w_alloc = 45; cfg.w_crystal = 35;
@@ -936,7 +939,7 @@ static void build_strata() {
 }
 static Plan stratum_plan(const Stratum& s, uint64_t runseed) {
   Plan p;
-  p.engine = O.engine; p.batch = "strata"; p.seed = O.seed; p.runseed = runseed; p.locale = LOC_C;
+  p.engine = O.engine; p.batch = "strata"; p.data = O.data; p.seed = O.seed; p.runseed = runseed; p.locale = LOC_C;
   p.tasks.push_back(TaskPlan());
   const QueryDef& d = g_queries[s.q];
   Rng r(runseed);
@@ -1019,12 +1022,13 @@ int main(int argc, char** argv) {
     else if (a == "--avoid") O.avoid = next();
     else if (a == "--catalogue") O.catalogue = atoi(next().c_str());
     else if (a == "--first-cache") O.first_cache = next();
+    else if (a == "--data") O.data = next();
     else if (a == "--print-log") O.print_log = true;
     else if (a == "-v") O.verbose++;
     else usage();
   }
   if (!g_out) g_out = stdout;
-  setenv("LOCPATH", (O.bdir + "/../locale").c_str(), 1);
+  { const char* ld = getenv("XV_LOCALE_DIR"); setenv("LOCPATH", ld ? ld : (O.bdir + "/../locale").c_str(), 1); }
   symbols_load((O.bdir + "/exe.sym").c_str(), O.bdir.c_str());
   load_builtin_crystals((O.bdir + "/Crystals.dat").c_str());
   signal(SIGPIPE, SIG_IGN);
